@@ -27,6 +27,8 @@ Inductive fname :=
 | FRound | FRoundUp | FRoundDown | FMod | FMean | FMax | FMin | FPercent | FFormatNumber
 | FDateFromParts | FTimeFromParts | FDateTimeAdd
 | FArray | FObject | FExtractObject | FRegexMatch | FForEach | FHasGroup
+| FText | FNumber | FBoolean | FAnd | FOr | FIf | FAbs | FCount | FDefault | FJoin | FReverse | FSum | FConcat
+| FIsError | FTextLength | FTextCompare
 | FOther (id : N).        (* a registered function outside the modelled set *)
 
 Inductive okind := KDateTime | KDate | KTime.
